@@ -2,12 +2,14 @@ package hx
 
 import (
 	"fmt"
+	"math/rand"
 	"runtime"
 	"strings"
 	"time"
 
 	"github.com/nautilus/gateway"
 	"github.com/vektah/gqlparser/v2"
+	"github.com/vektah/gqlparser/v2/ast"
 )
 
 func countSteps(steps []*gateway.QueryPlanStep) int {
@@ -70,6 +72,44 @@ func deepNesting(n int) string {
 	return "{ me { " + q + " } }"
 }
 
+// KindsFed is a federation over the other kinds of type a schema may hold — unions (one declared by one service,
+// one by both), enums, an input object, a custom scalar, an object that is no Node and an interface besides Node —
+// for the planning-only checks: queries on it are generated from its own merged schema
+func KindsFed() FedSpec {
+	a := `interface Node { id: ID! }
+interface Named { name: String }
+scalar Date
+enum Role { ADMIN MEMBER }
+input Paging { first: Int after: String }
+union SearchResult = User | Photo
+union Media = Photo | Album
+type Query { node(id: ID!): Node search: [SearchResult] best: SearchResult me: User settings: Settings feed: [Media] named: [Named] }
+type User implements Node & Named { id: ID! name: String firstName: String! role: Role joined: Date }
+type Photo implements Node { id: ID! url: String }
+type Album implements Node & Named { id: ID! name: String title: String }
+type Settings { theme: String owner: User since: Date }
+`
+	b := `interface Node { id: ID! }
+scalar Date
+enum Role { ADMIN MEMBER }
+union Media = Photo | Album
+type Query { node(id: ID!): Node allPhotos: [Photo] latest: Media }
+type User implements Node { id: ID! lastName: String photos: [Photo] favorite: Media }
+type Photo implements Node { id: ID! likes: Int owner: User taken: Date }
+type Album implements Node { id: ID! photos: [Photo] cover: Photo }
+`
+	return FedSpec{SDLs: map[string]string{"A": a, "B": b}, Order: []string{"A", "B"}, Owners: map[string][]string{}}
+}
+
+var kindsFixed = []planCase{
+	{ID: "kinds-union-typename", Query: `{ search { __typename } }`, Valid: true},
+	{ID: "kinds-union-typename-object", Query: `{ best { __typename ... on User { lastName } } }`, Valid: true},
+	{ID: "kinds-union-named-fragment", Query: `{ feed { ...M } } fragment M on Media { __typename ... on Album { title cover { likes } } }`, Valid: true},
+	{ID: "kinds-union-both-services", Query: `{ latest { __typename ... on Photo { url likes } } me { favorite { __typename } } }`, Valid: true},
+	{ID: "kinds-interface-typename", Query: `{ named { __typename name ... on User { lastName role joined } } }`, Valid: true},
+	{ID: "kinds-plain-object", Query: `{ settings { theme since owner { lastName role } } }`, Valid: true},
+}
+
 func c08Fixed() []planCase {
 	var cs []planCase
 	for _, n := range []int{0, 1, 49, 50, 51, 100, 300} {
@@ -92,6 +132,7 @@ func c08Fixed() []planCase {
 		planCase{ID: "introspection", Query: `{ __schema { types { name } } __type(name: "User") { name } }`, Valid: true},
 		planCase{ID: "subscription-kind", Query: `subscription { me { firstName } }`, Valid: false},
 	)
+	cs = append(cs, kindsFixed...)
 	return cs
 }
 
@@ -106,7 +147,7 @@ func (c08) Cases(tier string) int {
 }
 
 func (c08) Rule() string {
-	return "fixed cases (1-301 cross-service branch points spread over root fields and inside one step, fragment chains and field nesting of depth 1-40, two simultaneous planning errors, the known ping-pong configuration, syntax errors, undefined/cyclic fragments, introspection) then generated valid queries, single-token mutations of valid queries (mostly invalid) and random byte strings, over fixed and random federations with priorities; planning only, under a 5 s watchdog in a worker process; checked: returns, no panic, a plan iff gqlparser validates the query against the captured merged schema, goroutine count back to its level afterwards; non-trivial = valid query with at least 2 steps or an invalid query; distinct = distinct (federation, priorities, query)"
+	return "fixed cases (1-301 cross-service branch points spread over root fields and inside one step, fragment chains and field nesting of depth 1-40, queries on a federation with unions / enums / a custom scalar / a plain object / a second interface, two simultaneous planning errors, the known ping-pong configuration, syntax errors, undefined/cyclic fragments, introspection) then generated valid queries, single-token mutations of valid queries (mostly invalid) and random byte strings, over fixed and random federations with priorities, every fifth generated case a query generated from the merged schema of the federation of the other kinds of type (unions declared by one and by both services, __typename on union- and interface-typed fields); planning only, under a 5 s watchdog in a worker process; checked: returns, no panic, a plan iff gqlparser validates the query against the captured merged schema, goroutine count back to its level afterwards; non-trivial = valid query with at least 2 steps or an invalid query; distinct = distinct (federation, priorities, query)"
 }
 
 const noiseAlphabet = "{}()[]:$@!.\"\\ abcdefquerymutationfragmenton#,\n\t0123456789"
@@ -122,6 +163,21 @@ func (c08) Run(c *Ctx, i int) CaseResult {
 		pc = fixed[i]
 		in = fixedIn(pc.Query)
 		in.Spec.Priorities = pc.Prio
+		if strings.HasPrefix(pc.ID, "kinds-") {
+			in.Spec = KindsFed()
+		}
+	} else if i%5 == 4 {
+		// the federation of the other kinds of type: queries generated from its own merged schema
+		r := c.Rand(i + 13500000)
+		kind = "kinds"
+		in = FedInput{Spec: KindsFed(), StoreSeed: 5}
+		if r.Intn(3) == 0 {
+			in.Spec.Priorities = [][]string{{"B"}, {"A"}, {"B", "A"}}[r.Intn(3)]
+		}
+		g := &QGen{R: r, Schema: kindsSchema(), F: QFeat{Inline: true, Untyped: true, Named: r.Intn(2) == 0, Directives: r.Intn(3) == 0, CompositeDirectives: true,
+			Typename: true, IDHeavy: r.Intn(2) == 0, Depth: 2 + r.Intn(2)}}
+		in.Query = g.Query("")
+		pc = planCase{ID: fmt.Sprintf("%s:%d", kind, i), Query: in.Query, Prio: in.Spec.Priorities}
 	} else {
 		r := c.Rand(i + 13000000)
 		var feats map[string]bool
@@ -232,6 +288,24 @@ func (c08) Run(c *Ctx, i int) CaseResult {
 		res.Sample = map[string]interface{}{"query": q, "valid": valid, "steps": nsteps, "plan_ms": dt.Milliseconds(), "error": firstLine(ErrString(perr))}
 	}
 	return res
+}
+
+var kindsMerged *ast.Schema
+
+// kindsSchema: the schema the gateway merges from KindsFed (captured once through the planner hook)
+func kindsSchema() *ast.Schema {
+	if kindsMerged == nil {
+		f, err := NewFed(KindsFed(), GenStore(rand.New(rand.NewSource(1)), false))
+		if err != nil {
+			panic(err)
+		}
+		f.Plan(`{ __typename }`, 5*time.Second)
+		if f.Merged == nil {
+			panic("merged schema of KindsFed not captured")
+		}
+		kindsMerged = f.Merged
+	}
+	return kindsMerged
 }
 
 func b2i(b bool) int {
